@@ -121,9 +121,9 @@ ADDED = {
     'C01': 'Also: every operation evaluated during static initialisation, inlined into leaf routines (14 live locals; local arrays of 4..16 elements) and mulScalar with literal scalars, over all ordered pairs of 14 boundary words; every power of two and its neighbours in the alphabet.',
     'C02': 'Also: whole-register cases when a lane depends on its neighbours (cross-lane), the same kernels compiled inside an AVX-512 build and with -march=native, alias forms of every kernel, every power of two in the alphabet.',
     'C11': 'Also: whole-register cases when a lane depends on its neighbours (cross-lane), alias forms of every kernel, every power of two in the alphabet.',
-    'C03': 'Also: non-power-of-two domains, prior calls on the object, sizes 2^13..2^16 (2^20), boundary words planted at pipeline stages, every thread-count argument 1..17 (34), the default team size of the environment, the caller inside its own parallel region, the other buffer alignment, the source donated as scratch, extend=true on a forward call, a copy-constructed object, column counts around mined constants, 18 460 obligations on BR().',
-    'C04': 'Also: the dimensions listed for C03.',
-    'C05': 'Also: the dimensions listed for C03 (planted stage = coefficients after the coset scaling).',
+    'C03': 'Also: non-power-of-two domains, prior calls on the object, sizes 2^13..2^16 (2^20), boundary words planted at pipeline stages, every thread-count argument 1..17 (34), the default team size of the environment, the caller inside its own parallel region, the other buffer alignment, the source donated as scratch, extend=true on a forward call, a copy-constructed object, column counts around mined constants, 18 460 obligations on BR(). Every column partition (ncols 4..12, nblock 1..ncols+1), every pass schedule (nphase 1..log2 n) at n = 128, 256, 8192, and a -DNDEBUG build of the same sources over the small domains.',
+    'C04': 'Also: the dimensions listed for C03. Every column partition (ncols 4..12, nblock 1..ncols+1), every pass schedule (nphase 1..log2 n) at n = 128, 256, 8192, and a -DNDEBUG build of the same sources over the small domains.',
+    'C05': 'Also: the dimensions listed for C03 (planted stage = coefficients after the coset scaling). Every column partition (ncols 4..12, nblock 1..ncols+1), every pass schedule (nphase 1..log2 n) at n = 128, 256, 8192, and a -DNDEBUG build of the same sources over the small domains.',
     'C06': 'Also: alias forms of the hash wrappers.',
     'C07': 'Also: lengths around mined constants, lengths up to 2^24+1 (differential), three alignments.',
     'C08': 'Also: big shapes (rows to 2^15), teams around and above the processor count and every nThreads 1..128, batch sizes up to 2^63 and around 2^64/dim, the caller inside its own parallel region, rows/columns around mined constants.',
@@ -133,9 +133,9 @@ ADDED = {
     'C13': 'Also: alias forms, carry72 and straddle-2^64 operands, the coefficient array at every word offset modulo 64, the same kernels compiled inside an AVX-512 build and with -march=native.',
     'C14': 'Also: alias forms, carry72 and straddle-2^64 operands, the coefficient array at every word offset modulo 64.',
     'C15': 'Also: every numeral text of 1..3 (4) symbols in every radix with an own parser, long numerals with leading zeros / upper case, the array overload of toString, the conversions repeated under a digit-grouping global locale, alias forms of the reference overloads. The reference-output toString overload on a string reused across calls.',
-    'C16': 'Also: index-list shapes (all gap words), placements (0/8/16/24 mod 32), adjacent base pointers, constant sweep (2^k-1, 2^k, 2^k+1), whole-element patterns (one, zero, non-canonical one, basis elements, -1, base-field element in a / b / both x every stride configuration), huge strides on sparse reservations, a ThreadSanitizer re-entrancy step with shared index tables, the AVX2 overloads compiled inside an AVX-512 build and with -march=native.',
-    'C17': 'Also: the passes listed for C16; parcpy / parSetZero from inside a parallel region, on every size 0..18432 and with buffers backed by shared and file mappings.',
-    'C18': 'Also: a stack step (stack high-water at count c and 4c on a harness-owned stack; growth confirmed by a real overrun of an 8 MiB stack), an application-owned GMP allocator in the history harness.',
+    'C16': 'Also: index-list shapes (all gap words), placements (0/8/16/24 mod 32), adjacent base pointers, constant sweep (2^k-1, 2^k, 2^k+1), whole-element patterns (one, zero, non-canonical one, basis elements, -1, base-field element in a / b / both x every stride configuration), huge strides on sparse reservations, a ThreadSanitizer re-entrancy step with shared index tables, the AVX2 overloads compiled inside an AVX-512 build and with -march=native. Index lists with repeated neighbours (every word over consecutive/jump/wrap/repeat with at least one repeat) on the input operands.',
+    'C17': 'Also: the passes listed for C16; parcpy / parSetZero from inside a parallel region, on every size 0..18432 and with buffers backed by shared and file mappings. Index lists with repeated neighbours on the input operands.',
+    'C18': 'Also: a stack step (stack high-water at count c and 4c on a harness-owned stack; growth confirmed by a real overrun of an 8 MiB stack), an application-owned GMP allocator in the history harness. The transform sweep includes every column partition (ncols 4..12, nblock 1..ncols+1).',
     'C19': 'Also: unmerged exploration of all histories to depth 4 (5) over large calls and over eleven small calls including the public computeR, histories on objects constructed with extension 2, 4, 8; a replay that does not reproduce the canonical key is a violation.',
     'C20': 'Also: the readers perform line splicing before comment removal and give table initialisers and PTX immediates their C value (leading 0 = octal); 47 operations per build including the compound operators.',
 }
